@@ -203,6 +203,7 @@ def drive(sysm: Sys, prop: str, monitors: Sequence[Monitor], source: OpSource, s
         stats.states.add(util.state_digest(rec.state))
         h.update(util.canon(op).encode())
         h.update(util.tree_digest((rec.state, rec.ts)).encode())
+        _reach(ctx, rec)
         for m in monitors:
             m.on_reset(ctx, rec)
         seen_last = False
@@ -234,6 +235,8 @@ def drive(sysm: Sys, prop: str, monitors: Sequence[Monitor], source: OpSource, s
                 ctx.history.append(nrec)
             else:
                 ctx.history = [nrec]
+            if not seen_last:
+                _reach(ctx, nrec)
             for m in monitors:
                 m.on_step(ctx, nrec)
             if is_last(nrec.ts):
@@ -246,6 +249,22 @@ def drive(sysm: Sys, prop: str, monitors: Sequence[Monitor], source: OpSource, s
         raise
     stats.runs += 1
     return ops, h.hexdigest()
+
+
+def _reach(ctx: Ctx, rec: Rec) -> None:
+    """Reach measurement: count the rare conditions ("was this branch hit") the adapter recognises in this transition.
+    Never part of a verdict, never draws from the scheduler's PRNG, never raises."""
+    try:
+        names = ctx.adapter.events(rec.prev_state, rec.action, rec.state, rec.ts, ctx.env, ctx.cfg) or []
+    except Exception:  # noqa: BLE001
+        names = ["events_hook_error"]
+    for n in names:
+        ctx.stats.probe("ev:" + str(n))
+    if rec.kind == "step" and is_last(rec.ts):
+        ctx.stats.probe("ev:episode_ended")
+        tl = ctx.adapter.time_limit(ctx.env, ctx.cfg)
+        if tl is not None and rec.t >= tl:
+            ctx.stats.probe("ev:ended_at_time_limit")
 
 
 def replay_violates(sysm: Sys, prop: str, monitors: Sequence[Monitor], ops: Sequence[Sequence[Any]],
